@@ -60,6 +60,14 @@ theorem trials_conserved (I N C T j : Nat) (hI : 0 < I) (hle : I ≤ N * C) (hj 
   rw [trialsFor_allTasks, sumRuns_eq_total _ _ _ _ _ hI]
   exact Plan.run_parallel_conserves I (N * C) T j hI hle hj
 
+/-- every input is worked on by exactly `N*C / I` tasks, the last input by `N*C / I + N*C % I`
+    (in particular by at least one) -/
+theorem tasks_per_input (I N C T j : Nat) (hI : 0 < I) (hle : I ≤ N * C) (hj : j < I) :
+    ((allTasks I N C T).filter (fun t => t.input == j)).length =
+      (if j = I - 1 then N * C / I + N * C % I else N * C / I) := by
+  rw [tasksFor_allTasks, countTasks_eq_cnt _ _ _ hI, plan_count I (N * C) j hI hle hj]
+  rfl
+
 /-- `allTasks` is what the `N` invocations of `run_parallel` start, node after node -/
 theorem all_tasks_are_the_nodes_tasks (I N C cpu T : Nat) (hI : 0 < I) (hC : 0 < C)
     (hcpu : C ≤ cpu) (hle : I ≤ N * C) :
